@@ -1,6 +1,6 @@
 /* C03 harness: argument-facing real-time MIDI functions, extracted on every run (extracted.c). */
 #include "rt_contracts.h"
-unsigned g_other_calls; pl_cell_NoteInfo g_note_cell; MIDIchannel g_table_before[ENV_N_MIDI_CHANNELS];
+unsigned g_other_calls; pl_cell_NoteInfo g_note_cell; const OpnInstMeta g_cell_instrument; MIDIchannel g_chan_win[1]; MIDIchannel g_chan_before;
 #include "extracted.c"
 #define REACH(cond, name) __CPROVER_assert(!(cond), "REACH " name)
 uint8_t nondet_u8(void); uint16_t nondet_u16(void);
@@ -15,4 +15,10 @@ void h_realTime_BankChangeMSB(void) { SETUP realTime_BankChangeMSB(in_channel, i
 void h_realTime_BankChange(void) { SETUP realTime_BankChange(in_channel, in_w); REACH(in_channel == 16, "ch16"); }
 void h_realTime_ChannelAfterTouch(void) { SETUP realTime_ChannelAfterTouch(in_channel, in_a); REACH(in_channel == 16, "ch16"); }
 void h_realTime_NoteOff(void) { SETUP realTime_NoteOff(in_channel, in_a); REACH(in_channel == 16, "ch16"); }
-void h_realTime_NoteAfterTouch(void) { SETUP realTime_NoteAfterTouch(in_channel, in_a, in_b); REACH(in_channel == 16 && in_a == 200, "ch16 note 200"); REACH(g_midiChannels_storage[3].noteAfterTouchInUse, "in use"); }
+void h_realTime_NoteAfterTouch(void)
+{
+    in_channel = nondet_u8(); in_a = nondet_u8(); in_b = nondet_u8();
+    g_play.m_midiChannels = g_chan_win - SPEC_FOLD(in_channel); g_play.m_midiChannels_size = ENV_N_MIDI_CHANNELS;
+    realTime_NoteAfterTouch(in_channel, in_a, in_b);
+    REACH(in_channel == 16 && in_a == 200, "ch16 note 200"); REACH(g_chan_win[0].noteAfterTouchInUse, "in use");
+}
